@@ -1,36 +1,36 @@
 (* Tie theorems for _rpc/_pdu.py (DataRep, PDUHeader, SecTrailer, Fault): the regenerated syntax (gen/F_rpc.v), run in the
    world Flow/World_rpc.v, computes exactly the model functions of Model/Pdu.v the C12 theorems are about.
    pack: x.to_bytes(w, "little") raises OverflowError outside [0, 256^w); the model writes `le w x` and states everything
-   under wf_* (which implies the ranges), so the ties carry the exact range condition (chk). `cls` is the class itself. *)
+   under wf_* (which implies the ranges), so the ties carry the exact range condition: chk (<X>_ranges x) (<X>_pack x), the
+   ranges of Flow/World_rpc.v, which include those of every nested x.field.pack() (the world gives a nested pack exactly
+   this checked meaning).  wf_<X> x = true implies <X>_ranges x = true (wf_*_ranges below), so on well-formed messages
+   the run is Ok of the model's pack (lemmas flow_X_pack_wf).  `cls` is the class itself. *)
 From V Require Import Prelude.Base Prelude.PyInt Prelude.PySlice Prelude.PyAst Prelude.PyWorld gen.F_rpc.
 From V Require Import Model.Pdu Model.Request Model.RpcLoop Model.Bind Model.Verification Model.Epm Flow.World_rpc Proofs.Flow_rpc_lib.
+From V Require Import Proofs.RpcLib Proofs.RpcPdu.
 Local Open Scope string_scope.
 Local Open Scope list_scope.
 Local Open Scope Z_scope.
 
 Lemma flow_datarep_pack mf fuel d :
-  run (W mf) fuel k_flow_datarep_pack [VO (ODataRep d)] =
-  chk (in_range 1 (k_datarep_first_octet (dr_byte_order d) (dr_character d)) && in_range 1 (dr_floating_point d)) (data_rep_pack d).
-Proof. unfold data_rep_pack, chk, k_datarep_first_octet. tie. Qed.
+  run (W mf) fuel k_flow_datarep_pack [VO (ODataRep d)] = chk (data_rep_ranges d) (data_rep_pack d).
+Proof. unfold data_rep_pack, data_rep_ranges, chk, k_datarep_first_octet. tie. Qed.
 
 Lemma flow_datarep_unpack mf fuel data :
   run (W mf) fuel k_flow_datarep_unpack [VO (OCls CDataRep); VB data] = (let* d := data_rep_unpack data in Ok (VO (ODataRep d))).
 Proof. unfold data_rep_unpack. tie. Qed.
 
 Lemma flow_pduheader_pack mf fuel h :
-  run (W mf) fuel k_flow_pduheader_pack [VO (OHeader h)] =
-  chk (in_range 1 (h_version h) && in_range 1 (h_version_minor h) && in_range 1 (h_packet_type h) && in_range 1 (h_packet_flags h)
-       && in_range 2 (h_frag_len h) && in_range 2 (h_auth_len h) && in_range 4 (h_call_id h)) (pdu_header_pack h).
-Proof. unfold pdu_header_pack, chk. tie. Qed.
+  run (W mf) fuel k_flow_pduheader_pack [VO (OHeader h)] = chk (pdu_header_ranges h) (pdu_header_pack h).
+Proof. unfold pdu_header_pack, pdu_header_ranges, chk. destruct h. tie. Qed.
 
 Lemma flow_pduheader_unpack mf fuel data :
   run (W mf) fuel k_flow_pduheader_unpack [VO (OCls CPDUHeader); VB data] = (let* h := pdu_header_unpack data in Ok (VO (OHeader h))).
 Proof. unfold pdu_header_unpack. tie. Qed.
 
 Lemma flow_sectrailer_pack mf fuel s :
-  run (W mf) fuel k_flow_sectrailer_pack [VO (OSecTrailer s)] =
-  chk (in_range 1 (st_type s) && in_range 1 (st_level s) && in_range 1 (st_pad_length s) && in_range 4 (st_context_id s)) (sec_trailer_pack s).
-Proof. unfold sec_trailer_pack, chk. tie. Qed.
+  run (W mf) fuel k_flow_sectrailer_pack [VO (OSecTrailer s)] = chk (sec_trailer_ranges s) (sec_trailer_pack s).
+Proof. unfold sec_trailer_pack, sec_trailer_ranges, chk. tie. Qed.
 
 Lemma flow_sectrailer_unpack mf fuel data :
   run (W mf) fuel k_flow_sectrailer_unpack [VO (OCls CSecTrailer); VB data] = (let* s := sec_trailer_unpack data in Ok (VO (OSecTrailer s))).
@@ -41,7 +41,56 @@ Lemma flow_fault_unpack mf fuel data h st :
 Proof. unfold fault_unpack. destruct st; tie. Qed.
 
 Lemma flow_fault_pack mf fuel m :
-  run (W mf) fuel k_flow_fault_pack [VO (OFault m)] =
-  chk (in_range 4 (f_alloc_hint m) && in_range 2 (f_context_id m) && in_range 1 (f_cancel_count m) && in_range 1 (f_flags m)
-       && in_range 4 (f_status m)) (fault_pack m).
-Proof. unfold fault_pack, fault_body, opt_sec_trailer_pack, chk. destruct m as [h [st|] ? ? ? ? ? ?]; tie. Qed.
+  run (W mf) fuel k_flow_fault_pack [VO (OFault m)] = chk (fault_ranges m) (fault_pack m).
+Proof. unfold fault_pack, fault_body, opt_sec_trailer_pack, fault_ranges, chk. destruct m as [h [st|] ? ? ? ? ? ?]; tie. Qed.
+
+(* ---- well-formed values are in range: on them the checked pack is the model's pack ------------------------------ *)
+Lemma mem_in_range w x l : forallb (in_range w) l = true -> mem x l = true -> in_range w x = true.
+Proof. intros Hl Hm. apply mem_cases in Hm. rewrite forallb_forall in Hl. exact (Hl x Hm). Qed.
+
+Lemma wf_data_rep_ranges d : wf_data_rep d = true -> data_rep_ranges d = true.
+Proof.
+  unfold wf_data_rep, data_rep_ranges, k_datarep_first_octet. intros H.
+  apply andb_prop in H. destruct H as [H H3]. apply andb_prop in H. destruct H as [H1 H2].
+  rewrite (mem_in_range 1 _ c_FloatingPointRep_values eq_refl H3), andb_true_r.
+  apply mem_cases in H1. apply mem_cases in H2. cbn [In c_IntegerRep_values c_CharacterRep_values] in H1, H2.
+  destruct H1 as [<-|[<-|[]]]; destruct H2 as [<-|[<-|[]]]; reflexivity.
+Qed.
+
+Lemma wf_pdu_header_ranges h : wf_pdu_header h = true -> pdu_header_ranges h = true.
+Proof.
+  unfold wf_pdu_header, pdu_header_ranges. intros H.
+  repeat match type of H with (_ && _) = true => let H' := fresh "H" in apply andb_prop in H; destruct H as [H H'] end.
+  rewrite H, (mem_in_range 1 _ c_PacketType_values eq_refl H5), (wf_data_rep_ranges _ H3). repeat (rewrite ?H0, ?H1, ?H2, ?H4, ?H6; cbn [andb]). reflexivity.
+Qed.
+
+Lemma wf_sec_trailer_ranges s : wf_sec_trailer s = true -> sec_trailer_ranges s = true.
+Proof.
+  unfold wf_sec_trailer, sec_trailer_ranges. intros H.
+  repeat match type of H with (_ && _) = true => let H' := fresh "H" in apply andb_prop in H; destruct H as [H H'] end.
+  rewrite (mem_in_range 1 _ c_SecurityProvider_values eq_refl H), (mem_in_range 1 _ c_AuthenticationLevel_values eq_refl H3), H2, H1. reflexivity.
+Qed.
+
+Lemma wf_lengths_ranges h total st : wf_lengths h total st = true -> opt_sec_trailer_ranges st = true.
+Proof.
+  unfold wf_lengths. intros H. apply andb_prop in H. destruct H as [_ H]. destruct st as [t|]; [|reflexivity].
+  apply andb_prop in H. destruct H as [_ H]. exact (wf_sec_trailer_ranges t H).
+Qed.
+
+Ltac split_wf H :=
+  repeat match type of H with (_ && _) = true => let H' := fresh "H" in apply andb_prop in H; destruct H as [H H'] end.
+Ltac use_true := repeat match goal with H : ?b = true |- context [?b] => rewrite H end; cbn [andb]; try reflexivity.
+Ltac wf_msg :=
+  try match goal with H : wf_pdu_header _ = true |- _ => pose proof (wf_pdu_header_ranges _ H) end;
+  try match goal with H : wf_lengths _ _ _ = true |- _ => pose proof (wf_lengths_ranges _ _ _ H) end;
+  use_true.
+
+Lemma wf_fault_ranges m : wf_fault m = true -> fault_ranges m = true.
+Proof.
+  unfold wf_fault, fault_ranges. intros H.
+  split_wf H. wf_msg.
+Qed.
+
+Lemma flow_fault_pack_wf mf fuel m : wf_fault m = true ->
+  run (W mf) fuel k_flow_fault_pack [VO (OFault m)] = Ok (VB (fault_pack m)).
+Proof. intros H. rewrite flow_fault_pack, (wf_fault_ranges m H). reflexivity. Qed.
